@@ -128,8 +128,9 @@ impl<T: Alignment> Write for AlignedCursor<T> {
         }
 
         let cap = self.vec.len().saturating_mul(std::mem::size_of::<T>());
-        let rem = cap - self.pos;
-        if rem < len {
+        // Note that self.pos + len cannot overflow, and that the position
+        // can be beyond the capacity (e.g., after a seek).
+        if self.pos + len > cap {
             self.vec.resize(
                 (self.pos + len).div_ceil(std::mem::size_of::<T>()),
                 T::default(),
